@@ -532,7 +532,7 @@ pub fn run_c05(ctx: &mut Ctx) {
          the caller stops reading a stream never / mid-record / at end / before the first byte; look-ahead from 0 bytes to a full buffer at every hand-off (ending mid-header / mid-payload / mid-padding by random chunking); \
          oracle: every environment and every fully-read stream equals what was sent for that request, leftovers are exactly the unread suffix. Non-trivial: k >= 2 or unread input; distinct by (wire, buffer, schedule)");
     let mut rng = ctx.rng.fork();
-    for ci in 0..ctx.n(300, 6000) {
+    for ci in 0..ctx.n(1000, 6000) {
         let k = 1 + rng.usize_below(4);
         let mc = 1 + rng.usize_below(64);
         let b = *rng.pick(&[64usize, 96, 128, 256, 1024, 8192]);
